@@ -857,6 +857,472 @@ theorem uriParseCmp_host_case (raw1 raw1' raw2 raw2' : Buf) (f : Nat) (hfit1 : r
   · have b1 : ((parseURI raw1 {}).1 != UErr.none) = true := by simpa using c1
     simp only [b1, ↓reduceIte]
 
+/-! ### (4) the parameter / header list parsers do not look at letter case -/
+
+theorem ucl_lower_char_nat : ∀ a, a < 256 →
+    isWS (lowerB (UInt8.ofNat a)) = isWS (UInt8.ofNat a) ∧
+    isCRLFch (lowerB (UInt8.ofNat a)) = isCRLFch (UInt8.ofNat a) ∧
+    isLWSch (lowerB (UInt8.ofNat a)) = isLWSch (UInt8.ofNat a) ∧
+    (∀ k ∈ [(0 : UInt8), 9, 10, 13, 32, 34, 38, 44, 59, 61, 63, 92, 127],
+      (lowerB (UInt8.ofNat a) == k) = (UInt8.ofNat a == k)) ∧
+    (decide (lowerB (UInt8.ofNat a) < 33) = decide (UInt8.ofNat a < 33)) ∧
+    (∀ u, docAllowed (lowerB (UInt8.ofNat a)) u = docAllowed (UInt8.ofNat a) u) := by
+  decide +kernel
+
+/-- the byte tests of the scanners do not tell a letter from its other-case form -/
+structure UclSameClass (c d : UInt8) : Prop where
+  ws : isWS c = isWS d
+  crlf : isCRLFch c = isCRLFch d
+  lws : isLWSch c = isLWSch d
+  eq : ∀ k ∈ [(0 : UInt8), 9, 10, 13, 32, 34, 38, 44, 59, 61, 63, 92, 127], (c == k) = (d == k)
+  lt : decide (c < 33) = decide (d < 33)
+  tok : ∀ flags, tokAllowedChar c flags = tokAllowedChar d flags
+
+theorem ucl_lower_class (c : UInt8) : UclSameClass (lowerB c) c := by
+  have := ucl_lower_char_nat c.toNat (UInt8.toNat_lt c)
+  simp only [UInt8.ofNat_toNat] at this
+  obtain ⟨h1, h2, h3, h4, h5, h6⟩ := this
+  exact ⟨h1, h2, h3, h4, h5, fun flags => by rw [tokAllowedChar_doc, tokAllowedChar_doc, h6]⟩
+
+theorem ucl_sameClass {c d : UInt8} (h : lowerB c = lowerB d) : UclSameClass c d := by
+  have hc := ucl_lower_class c
+  have hd := ucl_lower_class d
+  rw [h] at hc
+  exact ⟨hc.ws.symm.trans hd.ws, hc.crlf.symm.trans hd.crlf, hc.lws.symm.trans hd.lws,
+    fun k hk => (hc.eq k hk).symm.trans (hd.eq k hk), hc.lt.symm.trans hd.lt,
+    fun f => (hc.tok f).symm.trans (hd.tok f)⟩
+
+
+theorem UclSameClass.ne {c d : UInt8} (h : UclSameClass c d) (k : UInt8)
+    (hk : k ∈ [(0 : UInt8), 9, 10, 13, 32, 34, 38, 44, 59, 61, 63, 92, 127]) : (c != k) = (d != k) := by
+  unfold bne; rw [h.eq k hk]
+
+theorem skipCRLF_case {b b' : Buf} (h : UclCaseVar b b') (i : Nat) : skipCRLF b' i = skipCRLF b i := by
+  unfold skipCRLF
+  rcases h1 : b[i+1]? with _ | c1
+  · rw [h.get_none h1]
+    rcases h0 : b[i]? with _ | c0
+    · rw [h.get_none h0]
+    · obtain ⟨c0', e0, l0⟩ := h.get_some h0
+      have k := ucl_sameClass l0
+      rw [e0]
+      simp only [k.ne 13 (by simp), k.ne 10 (by simp)]
+  · obtain ⟨c1', e1, l1⟩ := h.get_some h1
+    rw [e1]
+    rcases h0 : b[i]? with _ | c0
+    · rw [h.get_none h0]
+    · obtain ⟨c0', e0, l0⟩ := h.get_some h0
+      have k := ucl_sameClass l0
+      have k1 := ucl_sameClass l1
+      rw [e0]
+      simp only [k.eq 13 (by simp), k.eq 10 (by simp), k1.eq 10 (by simp)]
+
+theorem skipLWS_case {b b' : Buf} (h : UclCaseVar b b') (i flags : Nat) : skipLWS b' i flags = skipLWS b i flags := by
+  fun_induction skipLWS b i flags with
+  | case1 i hb => exact skipLWS_none (h.get_none hb)
+  | case2 i c hb hws ih =>
+    obtain ⟨c', e, l⟩ := h.get_some hb
+    rw [skipLWS_ws e (by rw [(ucl_sameClass l).ws]; exact hws)]; exact ih
+  | case3 i c hb hws hcr n' crl' hs hb2 hfl =>
+    obtain ⟨c', e, l⟩ := h.get_some hb
+    have k := ucl_sameClass l
+    rw [skipLWS_crlf_end e (by rw [k.ws]; simpa using hws) (by rw [k.crlf]; exact hcr)
+      (by rw [skipCRLF_case h]; exact hs) (h.get_none hb2), if_pos hfl]
+  | case4 i c hb hws hcr n' crl' hs hb2 hfl =>
+    obtain ⟨c', e, l⟩ := h.get_some hb
+    have k := ucl_sameClass l
+    rw [skipLWS_crlf_end e (by rw [k.ws]; simpa using hws) (by rw [k.crlf]; exact hcr)
+      (by rw [skipCRLF_case h]; exact hs) (h.get_none hb2), if_neg hfl]
+  | case5 i c hb hws hcr n' crl' hs c2 hb2 hws2 ih =>
+    obtain ⟨c', e, l⟩ := h.get_some hb
+    obtain ⟨c2', e2, l2⟩ := h.get_some hb2
+    have k := ucl_sameClass l
+    rw [skipLWS_crlf_ws e (by rw [k.ws]; simpa using hws) (by rw [k.crlf]; exact hcr)
+      (by rw [skipCRLF_case h]; exact hs) e2 (by rw [(ucl_sameClass l2).ws]; exact hws2)]
+    exact ih
+  | case6 i c hb hws hcr n' crl' hs c2 hb2 hws2 =>
+    obtain ⟨c', e, l⟩ := h.get_some hb
+    obtain ⟨c2', e2, l2⟩ := h.get_some hb2
+    have k := ucl_sameClass l
+    rw [skipLWS_crlf_eoh e (by rw [k.ws]; simpa using hws) (by rw [k.crlf]; exact hcr)
+      (by rw [skipCRLF_case h]; exact hs) e2 (by rw [(ucl_sameClass l2).ws]; simpa using hws2)]
+  | case7 i c hb hws hcr n' crl' e' hne hs =>
+    obtain ⟨c', e, l⟩ := h.get_some hb
+    have k := ucl_sameClass l
+    rw [skipLWS_crlf_err e (by rw [k.ws]; simpa using hws) (by rw [k.crlf]; exact hcr)
+      (by rw [skipCRLF_case h]; exact hs) (fun h => hne h)]
+  | case8 i c hb hws hcr =>
+    obtain ⟨c', e, l⟩ := h.get_some hb
+    have k := ucl_sameClass l
+    rw [skipLWS_other e (by rw [k.ws]; simpa using hws) (by rw [k.crlf]; simpa using hcr)]
+
+/-- generic: a loop run over two buffers of which the machine cannot tell the difference -/
+theorem ucl_runLoop_congr {σ : Type} (m : Machine σ) {b b' : Buf} (h : UclCaseVar b b')
+    (hstep : ∀ i c c' st, b[i]? = some c → b'[i]? = some c' → m.step b' i c' st = m.step b i c st)
+    (heob : ∀ i st, b[i]? = none → m.eob b' i st = m.eob b i st) :
+    ∀ (i : Nat) (st : σ), runLoop m b' i st = runLoop m b i st := by
+  intro i st
+  induction hk : b.size - i using Nat.strongRecOn generalizing i st with
+  | _ k ih =>
+    cases hb : b[i]? with
+    | none => rw [runLoop_none m st hb, runLoop_none m st (h.get_none hb), heob i st hb]
+    | some c =>
+      obtain ⟨c', e, l⟩ := h.get_some hb
+      have hi := get?_lt hb
+      cases hs : m.step b i c st with
+      | cont i' st' =>
+        rw [runLoop_cont m hb hs, runLoop_cont m e ((hstep i c c' st hb e).trans hs)]
+        by_cases hlt : i < i'
+        · rw [if_pos hlt, if_pos hlt]
+          exact ih (b.size - i') (by omega) i' st' rfl
+        · rw [if_neg hlt, if_neg hlt]
+      | done o e' st' =>
+        rw [runLoop_done m hb hs, runLoop_done m e ((hstep i c c' st hb e).trans hs)]
+
+theorem sqStep_case {b b' : Buf} (h : UclCaseVar b b') (i : Nat) (c c' : UInt8) (hb : b[i]? = some c)
+    (hb' : b'[i]? = some c') : sqStep b' i c' () = sqStep b i c () := by
+  have l : lowerB c' = lowerB c := by
+    obtain ⟨d, hd, hl⟩ := h.get_some hb
+    rw [hb'] at hd; cases hd; exact hl
+  have k := ucl_sameClass l
+  unfold sqStep
+  rw [k.eq 34 (by simp), k.eq 92 (by simp), k.eq 10 (by simp), k.eq 13 (by simp), k.eq 127 (by simp), k.lt,
+    k.ne 32 (by simp), k.ne 9 (by simp)]
+  rcases h1 : b[i + 1]? with _ | c1
+  · rw [h.get_none h1]
+  · obtain ⟨c1', e1, l1⟩ := h.get_some h1
+    rw [e1]
+    simp only [(ucl_sameClass l1).crlf]
+
+theorem skipQuoted_case {b b' : Buf} (h : UclCaseVar b b') (i : Nat) : skipQuoted b' i = skipQuoted b i := by
+  unfold skipQuoted
+  rw [ucl_runLoop_congr sqMachine h (fun i c c' _ hb hb' => sqStep_case h i c c' hb hb') (fun i _ _ => rfl)]
+
+
+theorem tpMoreBytes_case {b b' : Buf} (h : UclCaseVar b b') (flags : Nat) (p : PTokParam) (i : Nat) :
+    tpMoreBytes b' flags p i = tpMoreBytes b flags p i := by
+  unfold tpMoreBytes; rw [h.size]
+
+theorem tpLWS_case {b b' : Buf} (h : UclCaseVar b b') (flags i : Nat) (p : PTokParam) (upd : PTokParam → PTokParam) :
+    tpLWS b' flags i p upd = tpLWS b flags i p upd := by
+  unfold tpLWS; rw [skipLWS_case h, tpMoreBytes_case h]
+
+theorem tpSpTermSep_case {b b' : Buf} (h : UclCaseVar b b') (offs i : Nat) (p : PTokParam) :
+    tpSpTermSep b' offs i p = tpSpTermSep b offs i p := by
+  unfold tpSpTermSep
+  rcases h1 : b[i - 1]? with _ | c1
+  · rw [h.get_none h1]
+  · obtain ⟨c1', e1, l1⟩ := h.get_some h1
+    rw [e1]
+    simp only [(ucl_sameClass l1).lws]
+
+theorem tpStep_case {b b' : Buf} (h : UclCaseVar b b') (flags offs i : Nat) (c c' : UInt8) (p : PTokParam)
+    (hb : b[i]? = some c) (hb' : b'[i]? = some c') : tpStep flags offs b' i c' p = tpStep flags offs b i c p := by
+  have l : lowerB c' = lowerB c := by
+    obtain ⟨d, hd, hl⟩ := h.get_some hb
+    rw [hb'] at hd; cases hd; exact hl
+  have k := ucl_sameClass l
+  have ksep : (c' == tpSep flags) = (c == tpSep flags) := by
+    rcases tpSep_cases flags with hs | hs <;> rw [hs] <;> exact k.eq _ (by simp)
+  have kterm : (c' == tpTerm flags) = (c == tpTerm flags) := by
+    rcases tpTerm_cases flags with hs | hs | hs <;> rw [hs] <;> exact k.eq _ (by simp)
+  unfold tpStep
+  simp only [k.lws, ksep, kterm, k.eq 61 (by simp), k.eq 34 (by simp), k.tok flags, tpLWS_case h, tpSpTermSep_case h,
+    skipQuoted_case h, tpMoreBytes_case h]
+
+theorem parseTokenParam_case {b b' : Buf} (h : UclCaseVar b b') (offs : Nat) (p : PTokParam) (flags : Nat) :
+    parseTokenParam b' offs p flags = parseTokenParam b offs p flags := by
+  unfold parseTokenParam
+  split
+  · rfl
+  · exact ucl_runLoop_congr (tpMachine flags offs) h (fun i c c' st hb hb' => tpStep_case h flags offs i c c' st hb hb')
+      (fun i st _ => tpMoreBytes_case h flags st i) offs p
+
+
+theorem ucl_extract_caseEq {b b' : Buf} (h : UclCaseVar b b') (i j : Nat) : CaseEq (b'.extract i j) (b.extract i j) := by
+  have hsz := h.size
+  apply UclCaseVar.caseEq
+  intro n
+  rw [Array.getElem?_extract, Array.getElem?_extract, hsz]
+  by_cases hi : n < min j b.size - i
+  · simp only [hi, ↓reduceIte]; exact (h _).symm
+  · simp only [hi, ↓reduceIte]
+
+/-- reading a field from two buffers that differ only in letter case: both reads panic, or both succeed with results
+    equal up to case -/
+theorem ucl_get?_case {b b' : Buf} (h : UclCaseVar b b') (f : PField) :
+    (f.get? b' = none ∧ f.get? b = none) ∨ ∃ x' x, f.get? b' = some x' ∧ f.get? b = some x ∧ CaseEq x' x := by
+  unfold PField.get?
+  rw [h.size]
+  by_cases hc : f.offs ≤ f.endT ∧ f.endT ≤ b.size
+  · rw [if_pos hc, if_pos hc]
+    exact Or.inr ⟨_, _, rfl, rfl, ucl_extract_caseEq h _ _⟩
+  · rw [if_neg hc, if_neg hc]
+    exact Or.inl ⟨rfl, rfl⟩
+
+theorem ucl_resolve_caseEq {x x' : Buf} (h : CaseEq x' x) : uriParamResolve x' = uriParamResolve x := by
+  rw [uriParamResolve_lower, uriParamResolve_lower]
+  unfold CaseEq at h
+  rw [h]
+
+theorem uriParamsLoop_case {b b' : Buf} (h : UclCaseVar b b') (flags : Nat) :
+    ∀ (offs : Nat) (l : URIParamsLst) (vNo : Nat),
+      uriParamsLoop b' offs l flags vNo = uriParamsLoop b offs l flags vNo := by
+  intro offs l vNo
+  induction offs, l, vNo using uriParamsLoop_induct b flags with
+  | step offs l vNo ih =>
+    rw [uriParamsLoop_eq b', uriParamsLoop_eq b, parseTokenParam_case h]
+    rcases hp : parseTokenParam b offs l.cur.param flags with ⟨next, e, tp⟩
+    simp only
+    rcases ucl_get?_case h tp.name with ⟨g', g⟩ | ⟨x', x, g', g, hc⟩
+    · rw [g', g]
+    · rw [g', g]
+      simp only [ucl_resolve_caseEq hc, h.size]
+      by_cases hmv : e = .moreValues
+      · subst hmv
+        by_cases hG : next ≤ b.size ∧ (offs < next ∨ (offs = next ∧ l.cur.param.state = .fNxt ∧
+            (l.next tp (uriParamResolve x)).cur.param.state ≠ .fNxt))
+        · simp only [hG]
+          rw [ih next tp x hp g hG]
+        · simp only [hG, ↓reduceIte]
+      · have : (e == Err.moreValues) = false := by simpa using hmv
+        simp only [this, Bool.false_eq_true, ↓reduceIte]
+
+theorem uriHdrsLoop_case {b b' : Buf} (h : UclCaseVar b b') (flags : Nat) :
+    ∀ (offs : Nat) (l : URIHdrsLst) (vNo : Nat),
+      uriHdrsLoop b' offs l flags vNo = uriHdrsLoop b offs l flags vNo := by
+  intro offs l vNo
+  induction offs, l, vNo using uriHdrsLoop_induct b flags with
+  | step offs l vNo ih =>
+    rw [uriHdrsLoop_eq b', uriHdrsLoop_eq b, parseTokenParam_case h]
+    rcases hp : parseTokenParam b offs l.cur flags with ⟨next, e, tp⟩
+    simp only [h.size]
+    by_cases hmv : e = .moreValues
+    · subst hmv
+      by_cases hG : next ≤ b.size ∧ (offs < next ∨ (offs = next ∧ l.cur.state = .fNxt ∧ (l.next tp).cur.state ≠ .fNxt))
+      · simp only [hG]
+        rw [ih next tp hp hG]
+      · simp only [hG, ↓reduceIte]
+    · have : (e == Err.moreValues) = false := by simpa using hmv
+      simp only [this, Bool.false_eq_true, ↓reduceIte]
+
+/-- **LETTER CASE, ParseAllURIParams**: the same result — verdict, offsets, the stored positions and TYPES of all
+    parameters, the type mask — on two buffers that differ only in letter case; any list, any flags -/
+theorem parseAllURIParams_case {b b' : Buf} (h : UclCaseVar b b') (offs : Nat) (l : URIParamsLst) (flags : Nat) :
+    parseAllURIParams b' offs l flags = parseAllURIParams b offs l flags :=
+  uriParamsLoop_case h _ offs l 0
+
+/-- **LETTER CASE, ParseAllURIHdrs** -/
+theorem parseAllURIHdrs_case {b b' : Buf} (h : UclCaseVar b b') (offs : Nat) (l : URIHdrsLst) (flags : Nat) :
+    parseAllURIHdrs b' offs l flags = parseAllURIHdrs b offs l flags :=
+  uriHdrsLoop_case h _ offs l 0
+
+
+/-! ### (4b) the list comparisons read their buffers only up to letter case -/
+
+/-- the buffer with every ASCII upper-case letter lower-cased -/
+def uclLower (b : Buf) : Buf := b.map lowerB
+
+theorem uclLower_get? (f : PField) (b : Buf) : f.get? (uclLower b) = (f.get? b).map uclLower := by
+  unfold PField.get? uclLower
+  rw [Array.size_map]
+  by_cases hc : f.offs ≤ f.endT ∧ f.endT ≤ b.size
+  · rw [if_pos hc, if_pos hc, Option.map_some, Array.map_extract]
+  · rw [if_neg hc, if_neg hc, Option.map_none]
+
+theorem uclLower_caseEq (x : Buf) : CaseEq (uclLower x) x := by
+  unfold CaseEq uclLower lowerL
+  rw [Array.toList_map, List.map_map]
+  apply List.map_congr_left
+  intro c _
+  exact lowerB_lowerB c
+
+theorem cmpEq_uclLower (x y : Buf) : cmpEq (uclLower x) (uclLower y) = cmpEq x y :=
+  cmpEq_congr (uclLower_caseEq x) (uclLower_caseEq y)
+
+theorem uclLower_eq_of_caseEq {b b' : Buf} (h : CaseEq b b') : uclLower b = uclLower b' := by
+  apply Array.ext'
+  unfold uclLower
+  rw [Array.toList_map, Array.toList_map]
+  exact h
+
+theorem paramsEqInner_lower (p1 : URIParam) (b1 b2 : Buf) :
+    ∀ l, paramsEqInner p1 (uclLower b1) (uclLower b2) l = paramsEqInner p1 b1 b2 l := by
+  intro l
+  induction l with
+  | nil => rfl
+  | cons p2 rest ih =>
+    unfold paramsEqInner
+    rw [ih]
+    simp only [uclLower_get?]
+    cases p1.param.name.get? b1 <;> cases p2.param.name.get? b2 <;> cases p1.param.val.get? b1 <;>
+      cases p2.param.val.get? b2 <;> simp only [Option.map_none, Option.map_some, cmpEq_uclLower]
+
+theorem paramsEqOuter_lower (b1 b2 : Buf) (l2 : List URIParam) :
+    ∀ l1, paramsEqOuter (uclLower b1) (uclLower b2) l2 l1 = paramsEqOuter b1 b2 l2 l1 := by
+  intro l1
+  induction l1 with
+  | nil => rfl
+  | cons p1 rest ih =>
+    unfold paramsEqOuter
+    rw [ih, paramsEqInner_lower]
+
+theorem uriParamsLstEq_lower (l1 : URIParamsLst) (b1 : Buf) (l2 : URIParamsLst) (b2 : Buf) :
+    uriParamsLstEq l1 (uclLower b1) l2 (uclLower b2) = uriParamsLstEq l1 b1 l2 b2 := by
+  unfold uriParamsLstEq
+  rw [paramsEqOuter_lower]
+
+theorem hdrsEqInner_lower (h1 : PTokParam) (b1 b2 : Buf) :
+    ∀ l, hdrsEqInner h1 (uclLower b1) (uclLower b2) l = hdrsEqInner h1 b1 b2 l := by
+  intro l
+  induction l with
+  | nil => rfl
+  | cons h2 rest ih =>
+    unfold hdrsEqInner
+    rw [ih]
+    simp only [uclLower_get?]
+    cases h1.name.get? b1 <;> cases h2.name.get? b2 <;> cases h1.val.get? b1 <;>
+      cases h2.val.get? b2 <;> simp only [Option.map_none, Option.map_some, cmpEq_uclLower]
+
+theorem hdrsEqOuter_lower (b1 b2 : Buf) (l2 : List PTokParam) :
+    ∀ l1, hdrsEqOuter (uclLower b1) (uclLower b2) l2 l1 = hdrsEqOuter b1 b2 l2 l1 := by
+  intro l1
+  induction l1 with
+  | nil => rfl
+  | cons p1 rest ih =>
+    unfold hdrsEqOuter
+    rw [ih, hdrsEqInner_lower]
+
+theorem uriHdrsLstEq_lower (l1 : URIHdrsLst) (b1 : Buf) (l2 : URIHdrsLst) (b2 : Buf) :
+    uriHdrsLstEq l1 (uclLower b1) l2 (uclLower b2) = uriHdrsLstEq l1 b1 l2 b2 := by
+  unfold uriHdrsLstEq
+  rw [hdrsEqOuter_lower]
+
+/-- **LETTER CASE, URIParamsLstEq**: the verdict (panic included) depends on the two buffers only up to letter case —
+    parameter names AND values; no side condition on the lists -/
+theorem uriParamsLstEq_case (l1 : URIParamsLst) (l2 : URIParamsLst) {b1 b1' b2 b2' : Buf} (h1 : CaseEq b1 b1')
+    (h2 : CaseEq b2 b2') : uriParamsLstEq l1 b1' l2 b2' = uriParamsLstEq l1 b1 l2 b2 := by
+  rw [← uriParamsLstEq_lower l1 b1' l2 b2', ← uriParamsLstEq_lower l1 b1 l2 b2, uclLower_eq_of_caseEq h1,
+    uclLower_eq_of_caseEq h2]
+
+/-- **LETTER CASE, URIHdrsLstEq**: header names and values -/
+theorem uriHdrsLstEq_case (l1 : URIHdrsLst) (l2 : URIHdrsLst) {b1 b1' b2 b2' : Buf} (h1 : CaseEq b1 b1')
+    (h2 : CaseEq b2 b2') : uriHdrsLstEq l1 b1' l2 b2' = uriHdrsLstEq l1 b1 l2 b2 := by
+  rw [← uriHdrsLstEq_lower l1 b1' l2 b2', ← uriHdrsLstEq_lower l1 b1 l2 b2, uclLower_eq_of_caseEq h1,
+    uclLower_eq_of_caseEq h2]
+
+theorem uriParamsParse_case {b b' : Buf} (h : CaseEq b b') (o : Nat) : uriParamsParse b' o = uriParamsParse b o := by
+  unfold uriParamsParse
+  rw [parseAllURIParams_case (UclCaseVar.of_caseEq h)]
+
+theorem uriHdrsParse_case {b b' : Buf} (h : CaseEq b b') (o : Nat) : uriHdrsParse b' o = uriHdrsParse b o := by
+  unfold uriHdrsParse
+  rw [parseAllURIHdrs_case (UclCaseVar.of_caseEq h)]
+
+/-- **LETTER CASE, URIParamsEq**: the complete result is the same on parameter strings that differ only in letter
+    case (names and values), whatever they contain -/
+theorem uriParamsEq_case {b1 b1' b2 b2' : Buf} (h1 : CaseEq b1 b1') (h2 : CaseEq b2 b2') (o1 o2 : Nat) :
+    uriParamsEq b1' o1 b2' o2 = uriParamsEq b1 o1 b2 o2 := by
+  rw [uriParamsEq_eq, uriParamsEq_eq, uriParamsParse_case h1, uriParamsParse_case h2, uriParamsLstEq_case _ _ h1 h2]
+
+/-- **LETTER CASE, URIHdrsEq** -/
+theorem uriHdrsEq_case {b1 b1' b2 b2' : Buf} (h1 : CaseEq b1 b1') (h2 : CaseEq b2 b2') (o1 o2 : Nat) :
+    uriHdrsEq b1' o1 b2' o2 = uriHdrsEq b1 o1 b2 o2 := by
+  rw [uriHdrsEq_eq, uriHdrsEq_eq, uriHdrsParse_case h1, uriHdrsParse_case h2, uriHdrsLstEq_case _ _ h1 h2]
+
+
+/-! ### (4c) URICmp / URIParseCmp: letter case matters nowhere except in user and password -/
+
+theorem ucl_cmpFields_case {b1 b1' b2 b2' : Buf} (h1 : UclCaseVar b1 b1') (h2 : UclCaseVar b2 b2') (s : Bool)
+    (f g : PField) :
+    cmpFields s cmpEq (f.get? b1') (g.get? b2') = cmpFields s cmpEq (f.get? b1) (g.get? b2) := by
+  unfold cmpFields
+  rcases ucl_get?_case h1 f with ⟨a', a⟩ | ⟨x', x, a', a, ca⟩ <;>
+  rcases ucl_get?_case h2 g with ⟨c', c⟩ | ⟨y', y, c', c, cc⟩
+  · rw [a', a, c', c]
+  · rw [a', a, c', c]
+  · rw [a', a, c', c]
+  · rw [a', a, c', c]
+    simp only [cmpEq_congr ca cc]
+
+theorem ucl_paramsPart_case {b1 b1' b2 b2' : Buf} (h1 : UclCaseVar b1 b1') (h2 : UclCaseVar b2 b2') (u1 u2 : PsipURI) :
+    uriCmpParamsPart u1 b1' u2 b2' = uriCmpParamsPart u1 b1 u2 b2 := by
+  unfold uriCmpParamsPart
+  rcases ucl_get?_case h1 u1.params with ⟨a', a⟩ | ⟨x', x, a', a, ca⟩ <;>
+  rcases ucl_get?_case h2 u2.params with ⟨c', c⟩ | ⟨y', y, c', c, cc⟩
+  · rw [a', a, c', c]
+  · rw [a', a, c', c]
+  · rw [a', a, c', c]
+  · rw [a', a, c', c]
+    simp only
+    rw [uriParamsEq_case ca.symm cc.symm]
+
+theorem ucl_hdrsPart_case {b1 b1' b2 b2' : Buf} (h1 : UclCaseVar b1 b1') (h2 : UclCaseVar b2 b2') (u1 u2 : PsipURI) :
+    uriCmpHdrsPart u1 b1' u2 b2' = uriCmpHdrsPart u1 b1 u2 b2 := by
+  unfold uriCmpHdrsPart
+  rcases ucl_get?_case h1 u1.headers with ⟨a', a⟩ | ⟨x', x, a', a, ca⟩ <;>
+  rcases ucl_get?_case h2 u2.headers with ⟨c', c⟩ | ⟨y', y, c', c, cc⟩
+  · rw [a', a, c', c]
+  · rw [a', a, c', c]
+  · rw [a', a, c', c]
+  · rw [a', a, c', c]
+    simp only
+    rw [uriHdrsEq_case ca.symm cc.symm]
+
+/-- **LETTER CASE, URICmp**: for ANY two URI objects and any flags, URICmp gives the same answer (panic included)
+    when the buffers are replaced by buffers that differ only in letter case, provided the user and password bytes
+    read are the same.  No condition on duplicates, well-formedness, or the objects being results of ParseURI. -/
+theorem uriCmp_case (u1 : PsipURI) (b1 b1' : Buf) (u2 : PsipURI) (b2 b2' : Buf) (f : Nat)
+    (h1 : CaseEq b1 b1') (h2 : CaseEq b2 b2')
+    (hu1 : u1.user.get? b1' = u1.user.get? b1) (hp1 : u1.pass.get? b1' = u1.pass.get? b1)
+    (hu2 : u2.user.get? b2' = u2.user.get? b2) (hp2 : u2.pass.get? b2' = u2.pass.get? b2) :
+    uriCmp u1 b1' u2 b2' f = uriCmp u1 b1 u2 b2 f := by
+  have v1 := UclCaseVar.of_caseEq h1
+  have v2 := UclCaseVar.of_caseEq h2
+  rw [uriCmp_eq, uriCmp_eq, uriCmpShort_eq, uriCmpShort_eq, hu1, hp1, hu2, hp2, ucl_cmpFields_case v1 v2,
+    ucl_paramsPart_case v1 v2, ucl_hdrsPart_case v1 v2]
+
+/-- `raw'` is `raw` with the letter case of some bytes changed, but not inside the user and password components (as
+    ParseURI delimits them in `raw`) -/
+structure UclCaseVariant (raw raw' : Buf) : Prop where
+  caseEq : CaseEq raw raw'
+  user : uclSeg raw' (parseURI raw {}).2.2.1.user = uclSeg raw (parseURI raw {}).2.2.1.user
+  pass : uclSeg raw' (parseURI raw {}).2.2.1.pass = uclSeg raw (parseURI raw {}).2.2.1.pass
+
+instance (raw raw' : Buf) : Decidable (UclCaseVariant raw raw') :=
+  decidable_of_iff (CaseEq raw raw' ∧
+    uclSeg raw' (parseURI raw {}).2.2.1.user = uclSeg raw (parseURI raw {}).2.2.1.user ∧
+    uclSeg raw' (parseURI raw {}).2.2.1.pass = uclSeg raw (parseURI raw {}).2.2.1.pass)
+    ⟨fun ⟨a, b, c⟩ => ⟨a, b, c⟩, fun ⟨a, b, c⟩ => ⟨a, b, c⟩⟩
+
+/-- **LETTER CASE for the raw-string entry point**: for ANY two byte strings of at most 65,535 bytes, the complete
+    result of URIParseCmp (verdict, error, index, both parsed URIs — identical objects) is unchanged when the letter
+    case of either string is changed anywhere outside its user and password: scheme, host, parameter names and
+    values, header names and values.  No condition on duplicates or on the lists being well formed. -/
+theorem uriParseCmp_case (raw1 raw1' raw2 raw2' : Buf) (f : Nat) (hfit1 : raw1.size ≤ 65535)
+    (hfit2 : raw2.size ≤ 65535) (v1 : UclCaseVariant raw1 raw1') (v2 : UclCaseVariant raw2 raw2') :
+    uriParseCmp raw1' raw2' f = uriParseCmp raw1 raw2 f := by
+  have w1 := UclCaseVar.of_caseEq v1.caseEq
+  have w2 := UclCaseVar.of_caseEq v2.caseEq
+  have hp1 : parseURI raw1' {} = parseURI raw1 {} := parseURI_case raw1 raw1' {} w1
+  have hp2 : parseURI raw2' {} = parseURI raw2 {} := parseURI_case raw2 raw2' {} w2
+  rw [uriParseCmp_eq, uriParseCmp_eq, hp1, hp2]
+  by_cases c1 : (parseURI raw1 {}).1 = UErr.none
+  · by_cases c2 : (parseURI raw2 {}).1 = UErr.none
+    · have g1 := ucl_parse_get raw1 hfit1 c1
+      have g1' := ucl_parse_get raw1' (by rw [w1.size]; exact hfit1) (by rw [hp1]; exact c1)
+      have g2 := ucl_parse_get raw2 hfit2 c2
+      have g2' := ucl_parse_get raw2' (by rw [w2.size]; exact hfit2) (by rw [hp2]; exact c2)
+      rw [hp1] at g1'
+      rw [hp2] at g2'
+      rw [uriCmp_case _ raw1 raw1' _ raw2 raw2' f v1.caseEq v2.caseEq
+        (by rw [g1' _ (by simp), g1 _ (by simp), v1.user]) (by rw [g1' _ (by simp), g1 _ (by simp), v1.pass])
+        (by rw [g2' _ (by simp), g2 _ (by simp), v2.user]) (by rw [g2' _ (by simp), g2 _ (by simp), v2.pass])]
+    · have b2 : ((parseURI raw2 {}).1 != UErr.none) = true := by simpa using c2
+      simp only [b2, ↓reduceIte]
+  · have b1 : ((parseURI raw1 {}).1 != UErr.none) = true := by simpa using c1
+    simp only [b1, ↓reduceIte]
+
 /-! ### tests / non-vacuity (closed computations, `decide +kernel`) -/
 
 section UclTests
@@ -920,6 +1386,27 @@ theorem ucl_needs_nodup :
     (uriParseCmp "sip:a@b;x=1;X=2".toUTF8.data "sip:a@b;x=1;X=2".toUTF8.data 0).map (·.1) = some false ∧
     (uriParseCmp "sip:a@b;x=1;X=2".toUTF8.data "sip:a@b;x=1".toUTF8.data 0).map (·.1) = some false ∧
     (uriParseCmp "sip:a@b;x=1".toUTF8.data "sip:a@b;x=1;X=2".toUTF8.data 0).map (·.1) = some true := by decide +kernel
+
+/-- non-vacuity of `UclCaseVariant` with changes in scheme, host, parameter names and values, header names and values -/
+def uclRawC' : Buf := "SIP:Alice:pw@eXAMPLE.com:5060;TRANSPORT=UDP;fOO=bAR;LR?A=1&b=2".toUTF8.data
+theorem uclRawC_variant : UclCaseVariant uclRawA uclRawC' := by decide +kernel
+example (f : Nat) : uriParseCmp uclRawC' uclRawB' f = uriParseCmp uclRawA uclRawB f :=
+  uriParseCmp_case uclRawA uclRawC' uclRawB uclRawB' f (by decide) (by decide) uclRawC_variant (by decide +kernel)
+/-- so the string re-cased everywhere but in user and password equals the original one under every flag value -/
+example (f : Nat) : uriParseCmp uclRawC' uclRawA f =
+    some (true, UErr.none, 0, some (parseURI uclRawA {}).2.2.1, some (parseURI uclRawA {}).2.2.1) := by
+  rw [uriParseCmp_case uclRawA uclRawC' uclRawA uclRawA f (by decide) (by decide) uclRawC_variant
+    ⟨CaseEq.refl _, rfl, rfl⟩]
+  exact uriParseCmp_refl_raw uclRawA f (by decide) uclRawA_acc uclRawA_ok uclRawA_nodup
+/-- the exclusion of user and password is necessary: re-casing the user gives a different URI -/
+example : ¬ UclCaseVariant uclRawA "sip:alice:pw@Example.COM:5060;transport=udp;Foo=Bar;lr?a=1&B=2".toUTF8.data := by
+  decide +kernel
+example : (uriParseCmp "sip:alice:pw@Example.COM:5060;transport=udp;Foo=Bar;lr?a=1&B=2".toUTF8.data uclRawA 0).map (·.1) =
+    some false := by decide +kernel
+/-- test: ParseAllURIParams on a re-cased string: same positions, same types -/
+example : parseAllURIParams "TRANSPORT=UDP;fOO=bAR;LR".toUTF8.data 0 { params := Array.replicate 4 {} } 0 =
+    parseAllURIParams "transport=udp;Foo=Bar;lr".toUTF8.data 0 { params := Array.replicate 4 {} } 0 :=
+  parseAllURIParams_case (UclCaseVar.of_caseEq (by decide +kernel)) 0 _ 0
 
 /-- test / non-vacuity of `parseAllURIParams_ucl`: the mask is the set of stored types -/
 example : TypesOk (parseAllURIParams "user=phone;ttl=1;x".toUTF8.data 0 { params := Array.replicate 5 {} } 0).2.2.2 :=
